@@ -265,6 +265,62 @@ def _is_parent_param(s):
     return "capture" in repr(s)
 
 
+def _countdown_loop(f, c):
+    """`let mut n = count; while n > 0 { self.record(value); n -= 1; }` (also `!= 0`): a variable initialised from the count
+    parameter, tested against zero at the loop head, decremented by exactly one and accompanied by exactly one record() on
+    every way round the loop."""
+    from props.common import value_def, _single_def_of
+
+    b = f.body
+    a = arg_syms(c)
+    if not ((sym_arg(a[0]) or (None,))[0] == 0 and (sym_arg(a[1]) or (None,))[0] == 1) or not in_cycle(b, c.bb):
+        return False
+    for N in range(b.argc + 1, len(b.locals)):
+        ds = [d for d in b.defs().get(N, []) if d[0] == "assign"]
+        if len(ds) != 2 or len(b.defs().get(N, [])) != 2:
+            continue
+        init = [d for d in ds if not in_cycle(b, d[1])]
+        step = [d for d in ds if in_cycle(b, d[1])]
+        if len(init) != 1 or len(step) != 1:
+            continue
+        iv = value_def(b, init[0][3]["rv"]["a"]) if init[0][3]["rv"]["k"] == "use" else None
+        if iv is None or iv != ("var", 3):  # parameter #2 (count) is local _3
+            continue
+        # n = (n - 1), possibly through the overflow-checked pair
+        sv = step[0][3]["rv"]
+        src = value_def(b, sv["a"]) if sv["k"] == "use" else ("rv", step[0][1], sv)
+        if src[0] == "place":
+            dd = _single_def_of(b, src[1]["l"])
+            src = ("rv", dd[1], dd[3]["rv"]) if dd is not None and dd[0] == "assign" else src
+        if not (src[0] == "rv" and src[2]["k"] in ("bin", "checked_bin") and str(src[2].get("op", "")).startswith("Sub") and (src[2]["b"].get("const") or {}).get("int") == 1 and value_def(b, src[2]["a"]) == ("var", N)):
+            continue
+        D = step[0][1]
+        # loop head: a bool switch on `n > 0` / `n != 0`
+        for s_ in range(b.n):
+            t = b.term(s_)
+            if t["k"] != "switch" or t.get("dty") != "bool" or not in_cycle(b, s_):
+                continue
+            dl = (t["discr"].get("copy") or t["discr"].get("move") or {}).get("l")
+            dd = _single_def_of(b, dl) if dl is not None else None
+            if dd is None or dd[0] != "assign" or dd[3]["rv"]["k"] != "bin" or dd[3]["rv"]["op"] not in ("Gt", "Ne"):
+                continue
+            if value_def(b, dd[3]["rv"]["a"]) != ("var", N) or (dd[3]["rv"]["b"].get("const") or {}).get("int") != 0:
+                continue
+            vals = [x["v"] for x in t["arms"]]
+            t_t = next((tg for lab, tg in b.switch_edges(s_) if ((not bool(vals[0]) if len(vals) == 1 else None) if lab == "otherwise" else bool(lab)) is True), None)
+            f_t = next((tg for lab, tg in b.switch_edges(s_) if ((not bool(vals[0]) if len(vals) == 1 else None) if lab == "otherwise" else bool(lab)) is False), None)
+            if t_t is None or f_t is None:
+                continue
+            # every way from the true edge back to the head passes the record call and the decrement; the false edge leaves
+            if s_ in b.reachable(t_t, cut={c.bb}) or s_ in b.reachable(t_t, cut={D}) or s_ in b.reachable(f_t):
+                continue
+            # and each exactly once per round
+            if c.bb in b.reachable_after(c.bb, cut={s_}) or D in b.reachable_after(D, cut={s_}):
+                continue
+            return True
+    return False
+
+
 def _check_record_many_loop(chk, f):
     from props.common import iteration_context
 
@@ -274,6 +330,8 @@ def _check_record_many_loop(chk, f):
         return chk.ob("C04.c", where, False, f"expected exactly one record() call site in the loop, found {len(recs)}", f.loc())
     c = recs[0]
     rng, why = iteration_context(c)
+    if rng is None and _countdown_loop(f, c):
+        return chk.ob("C04.c", where, True, "let mut n = count; while n > 0 { self.record(value); n -= 1 } — record once per unit of count", c.loc())
     if rng is None:
         return chk.ob("C04.c", where, False, f"record() is not run once per iteration of a loop over 0..count ({why}): record_many would not record `count` times", c.loc())
     a = arg_syms(c)
